@@ -94,14 +94,14 @@ func genMux(seed uint64, n int, maxOps int, demux bool, emit func(interface{})) 
 			case x < 25 || (churn && x < 75):
 				sc.Ops = append(sc.Ops, muxOp{Op: "tables"})
 			case x < 28:
-				sc.Ops = append(sc.Ops, muxOp{Op: "packet", Kind: r.pickS("null", "short", "pcr", "toobig", "toobigaf", "nopltoobig")})
+				sc.Ops = append(sc.Ops, muxOp{Op: "packet", Kind: r.pickS("null", "short", "pcr", "toobig", "toobigaf", "nopltoobig", "hugeaf", "hugeafonly", "hugestuff", "privlen")})
 			case x < 30:
 				sc.Ops = append(sc.Ops, muxOp{Op: "data", PID: 999, Len: 10, Hdr: "pts", AF: "none"})
 			default:
 				hdr := muxHdrClasses[r.intn(len(muxHdrClasses))]
 				af := muxAFClasses[r.intn(len(muxAFClasses))]
 				if !demux && r.intn(30) == 0 {
-					af = r.pickS("big", "bigrai")
+					af = r.pickS("big", "bigrai", "huge", "huge8")
 				}
 				op := muxOp{Op: "data", PID: live[r.intn(len(live))], Hdr: hdr, AF: af}
 				op.Len = boundaryLen(r, hdr, af, false)
